@@ -56,8 +56,8 @@ Definition p_format (bs : list N) : option (dformat * list N) :=
 
 (** format, number of variables, number of clauses (0 for the SAT formats) *)
 Definition dimacs_problem_line (bs : list N) : pres ((dformat * N * N) * list N) :=
-  match bs with
-  | 112 :: r0 =>
+  match strip_prefix [112] bs with
+  | Some r0 =>
     do r1 <- space1 r0;
     match p_format r1 with
     | None => PErr
@@ -75,7 +75,7 @@ Definition dimacs_problem_line (bs : list N) : pres ((dformat * N * N) * list N)
         POk ((fmt, nv, 0), r5)
       end
     end
-  | _ => PErr
+  | None => PErr
   end.
 
 (* ------------------------------------------------------------------ *)
@@ -160,16 +160,15 @@ Definition sat_lex (nv : N) (bs : list N) : lexres :=
     match p_u64 r with
     | POk (n, r') => if (n =? 0) || (nv <? n) then LFail else LTok (SVarT n) r'
     | _ =>
-      match r with
-      | 40 :: r' => LTok SLpar r'
-      | 41 :: r' => LTok SRpar r'
-      | 45 :: r' => LTok SNegT r'
-      | 42 :: r' => LTok SAndT r'
-      | 43 :: r' => LTok SOrT r'
-      | 120 :: 111 :: 114 :: r' => if word_end r' then LTok SXorT r' else LFail
-      | 61 :: r' => LTok SEqT r'
-      | _ => LFail
-      end
+      if starts_with 40 r then LTok SLpar (tl r)
+      else if starts_with 41 r then LTok SRpar (tl r)
+      else if starts_with 45 r then LTok SNegT (tl r)
+      else if starts_with 42 r then LTok SAndT (tl r)
+      else if starts_with 43 r then LTok SOrT (tl r)
+      else match strip_prefix [120; 111; 114] r with
+           | Some r' => if word_end r' then LTok SXorT r' else LFail
+           | None => if starts_with 61 r then LTok SEqT (tl r) else LFail
+           end
     end
   end.
 
